@@ -2,6 +2,7 @@ package exec
 
 import (
 	"fmt"
+	"strconv"
 	"go/types"
 	"os"
 	"path/filepath"
@@ -470,21 +471,113 @@ func (m *Machine) pathModel() (mv []ModelVal) {
 	return m.modelVals()
 }
 
+var replayWitnessCids = []string{
+	"QmUaFyXjZUNaUwYF8rBtbJc7fEJ46aJXvgV8z2HHs6jvmJ",
+	"QmbrCtydGyPeHiLURSPMqrvE5mCgMCwFYq3UD4XLCeAYw6",
+	"QmZHKZDavkvNfA9gSAg7HALv8jF7BJaKjUc9U2LSuvUySB",
+	"QmP63DkAFEnDYNjDYBpyNDfttu1fvUw99x1brscPzpqmmq",
+}
+
 func (m *Machine) modelVals() []ModelVal {
 	var ts []*sym.Term
 	for _, n := range m.nondets {
 		ts = append(ts, n.T)
 	}
+	// Strings that the code decodes are abstracted by uninterpreted predicates
+	// (decodable? decoded value): read those too so that the replayed input
+	// can be made to mean natively what the model says it means.
+	type ufq struct{ ok, val *sym.Term }
+	codecs := []struct {
+		okN, valN string
+		valSort    sym.Sort
+	}{
+		{"uf_cid_ok", "uf_cid_bytes", sym.StrSort},
+		{"uf_peer_ok", "uf_peer_bytes", sym.StrSort},
+		{"uf_pi_ok", "uf_pi_val", sym.BV(64)},
+		{"uf_pu_ok", "uf_pu_val", sym.BV(64)},
+	}
+	ufs := map[int][]ufq{}
+	for i, n := range m.nondets {
+		if n.Kind != "string" || n.T.Const {
+			continue
+		}
+		for _, cd := range codecs {
+			q := ufq{}
+			if m.sol.HasDecl(cd.okN) {
+				q.ok = sym.UF(cd.okN, sym.BoolSort, n.T)
+				ts = append(ts, q.ok)
+				if m.sol.HasDecl(cd.valN) {
+					q.val = sym.UF(cd.valN, cd.valSort, n.T)
+					ts = append(ts, q.val)
+				}
+			}
+			ufs[i] = append(ufs[i], q)
+		}
+	}
 	vals, err := m.sol.Values(ts)
 	if err != nil {
 		return []ModelVal{{Tag: "error", Kind: "error", Val: err.Error()}}
 	}
+	witness := map[string]string{}
 	var out []ModelVal
-	for _, n := range m.nondets {
+	for i, n := range m.nondets {
 		v := vals[n.T]
-		out = append(out, ModelVal{Tag: n.Tag, Kind: n.Kind, Val: termGoVal(v, n.Kind)})
+		s := termGoVal(v, n.Kind)
+		if qs, ok := ufs[i]; ok {
+			anyOK := false
+			for k, q := range qs {
+				if q.ok == nil || vals[q.ok] == nil || !vals[q.ok].IsTrue() {
+					continue
+				}
+				anyOK = true
+				switch k {
+				case 0, 1:
+					key := fmt.Sprintf("%d:", k)
+					if q.val != nil && vals[q.val] != nil {
+						key += vals[q.val].S
+					}
+					if _, seen := witness[key]; !seen {
+						witness[key] = replayWitnessCids[len(witness)%len(replayWitnessCids)]
+					}
+					s = witness[key]
+				case 2:
+					if q.val != nil && vals[q.val] != nil {
+						s = fmt.Sprintf("%d", vals[q.val].SInt())
+					}
+				case 3:
+					if q.val != nil && vals[q.val] != nil {
+						s = fmt.Sprintf("%d", vals[q.val].U)
+					}
+				}
+				break
+			}
+			if !anyOK && len(qs) > 0 {
+				anyDeclared := false
+				for _, q := range qs {
+					if q.ok != nil {
+						anyDeclared = true
+					}
+				}
+				// not decodable by any codec applied to it: make sure the native
+				// decoders agree (a model string such as "7" would parse)
+				if anyDeclared && s != "" && replayLooksDecodable(s) {
+					s = "!" + s
+				}
+			}
+		}
+		out = append(out, ModelVal{Tag: n.Tag, Kind: n.Kind, Val: s})
 	}
 	return out
+}
+
+func replayLooksDecodable(s string) bool {
+	if _, err := strconv.ParseInt(s, 10, 64); err == nil {
+		return true
+	}
+	if _, ok := cidDecodeConcrete(s); ok {
+		return true
+	}
+	return false
 }
 
 func termGoVal(v *sym.Term, kind string) string {
